@@ -178,6 +178,14 @@ def gen_versions(rng):
         # patch between them
         k = rng.randrange(len(dedup))
         dedup.insert(k, list(dedup[k]))
+    if len(dedup) >= 2 and rng.random() < 0.2:
+        # a reverted change: an earlier content comes back later (A-B-A-C, A-B-C-B-D), so the same hash stands twice in the
+        # history, each time with its own patch; the chain starts at the first entry that matches the local copy
+        j = rng.randrange(1, len(dedup))
+        i = rng.randrange(0, j)
+        dedup.insert(j + 1, list(dedup[i]))
+        if j + 1 == len(dedup) - 1 or rng.random() < 0.5:
+            dedup.append(dedup[-1] + [rng.choice(pool[:8]).replace(".\n", "y\n")])
     return dedup
 
 
